@@ -22,6 +22,9 @@ var restAPIs []api_domain2.RestAPI
 var currentClz string
 var currentPkg string
 
+// names of the class declarations the walk is inside of, innermost last
+var enclosingClasses []string
+
 var identMap map[string]core_domain.CodeDataStruct
 var imports []string
 var currentImplements = ""
@@ -36,6 +39,7 @@ func NewJavaAPIListener(jIdentMap map[string]core_domain.CodeDataStruct, diMap m
 	currentClz = ""
 	currentPkg = ""
 	currentImplements = ""
+	enclosingClasses = nil
 
 	imports = nil
 	restAPIs = nil
@@ -65,6 +69,7 @@ func (s *JavaAPIListener) EnterClassDeclaration(ctx *parser.ClassDeclarationCont
 	if ctx.Identifier() != nil {
 		currentClz = ctx.Identifier().GetText()
 	}
+	enclosingClasses = append(enclosingClasses, currentClz)
 
 	if ctx.IMPLEMENTS() != nil {
 		currentImplements = ctx.TypeList(0).GetText()
@@ -72,6 +77,14 @@ func (s *JavaAPIListener) EnterClassDeclaration(ctx *parser.ClassDeclarationCont
 }
 
 func (s *JavaAPIListener) ExitClassDeclaration(ctx *parser.ClassDeclarationContext) {
+	if len(enclosingClasses) > 0 {
+		enclosingClasses = enclosingClasses[:len(enclosingClasses)-1]
+	}
+	if len(enclosingClasses) > 0 {
+		// the end of a nested class: the walk is back in the enclosing class
+		currentClz = enclosingClasses[len(enclosingClasses)-1]
+		return
+	}
 	hasEnterClass = false
 }
 
